@@ -3,6 +3,7 @@ package main
 // Contract files (//@ comments behind the build tag) and the spec-expression evaluator.
 
 import (
+	"regexp"
 	"bufio"
 	"fmt"
 	"go/ast"
@@ -46,6 +47,7 @@ type Contract struct {
 	Trusted   bool
 	Decreases []*Clause
 	RuleName  string
+	RecvName  string // receiver name used in the contract header: clauses may use it whatever the code calls the receiver now
 	File      string
 	Reveal    []string
 	Lets      map[string]ast.Expr
@@ -53,6 +55,7 @@ type Contract struct {
 	Unreachable string // `unreachable <reason>`: the body is not verified; every caller must be excluded by a precondition
 	Globals   []string  // `globals a.X b.Y`: the only package-level variables the function may write (transitively)
 	HasGlobals bool
+	mentioned map[string]bool
 	Defines   []*Clause // conservative definitions of otherwise uninterpreted predicates: assumed at entry of the function
 }
 
@@ -343,6 +346,9 @@ func (e *Engine) parseContractFile(file, pkg string) error {
 				recv := strings.Fields(strings.Trim(hdr[1:i], " "))
 				tn := strings.TrimPrefix(recv[len(recv)-1], "*")
 				name = tn + "." + strings.TrimSpace(hdr[i+1:])
+				if len(recv) == 2 {
+					cur.RecvName = recv[0]
+				}
 			}
 			cur.Func = pkg + "." + name
 			if word == "iface" {
@@ -890,9 +896,213 @@ func (c *specCtx) ident(name string) TV {
 	if sig, ok := c.fe.eng.specs.sigs[name]; ok && len(sig.Params) == 0 && sig.Result != "" && len(sig.Heap) == 0 {
 		return TV{Term{name, sig.Result}, nil}
 	}
+	// rename recovery: the name may be a local or parameter that has been renamed in the code since the contract was
+	// written.  Candidates are the named values in scope that the contract does not mention anywhere; a single candidate,
+	// or one clearly closest in spelling, is taken (noted in the output).  A wrong guess cannot prove anything false: it
+	// only changes which variable an invariant talks about, and the invariant still has to be proved.
+	if tv, ok := c.renamed(name); ok {
+		return tv
+	}
 	engErr("unknown identifier %q", name)
 	return TV{}
 }
+
+func lcsLen(a, b string) int {
+	ra, rb := []rune(a), []rune(b)
+	prev := make([]int, len(rb)+1)
+	for i := 1; i <= len(ra); i++ {
+		cur := make([]int, len(rb)+1)
+		for j := 1; j <= len(rb); j++ {
+			if ra[i-1] == rb[j-1] {
+				cur[j] = prev[j-1] + 1
+			} else if prev[j] >= cur[j-1] {
+				cur[j] = prev[j]
+			} else {
+				cur[j] = cur[j-1]
+			}
+		}
+		prev = cur
+	}
+	return prev[len(rb)]
+}
+
+func (c *specCtx) renamed(name string) (TV, bool) {
+	if c.f == nil || c.f.fn == nil || c.fe == nil {
+		return TV{}, false
+	}
+	con := c.fe.eng.contracts[c.fe.eng.fnames[c.f.fn]]
+	if con == nil {
+		return TV{}, false
+	}
+	if c.fe.renames == nil {
+		c.fe.renames = map[string]string{}
+	}
+	key := c.fe.eng.fnames[c.f.fn] + ":" + name
+	if to, ok := c.fe.renames[key]; ok {
+		if to == "" {
+			return TV{}, false
+		}
+		if tv, ok := c.lookupByAnyName(to); ok {
+			return tv, true
+		}
+		return TV{}, false
+	}
+	mentioned := con.mentionedNames()
+	// first the loop-carried variables of the loop whose invariant is being read (they are what invariants talk about)
+	{
+		var loopC []string
+		for k := range c.names {
+			if k == "iter" || k == "pos" || k == "visited" || mentioned[k] {
+				continue
+			}
+			loopC = append(loopC, k)
+		}
+		pick := ""
+		if len(loopC) == 1 {
+			pick = loopC[0]
+		} else if len(loopC) > 1 {
+			bs, ss := -1.0, -1.0
+			for _, cand := range loopC {
+				den := len([]rune(name))
+				if n := len([]rune(cand)); n > den {
+					den = n
+				}
+				sc := float64(lcsLen(name, cand)) / float64(den)
+				if sc > bs {
+					ss, bs, pick = bs, sc, cand
+				} else if sc > ss {
+					ss = sc
+				}
+			}
+			if !(bs >= 0.4 && bs-ss >= 0.2) {
+				pick = ""
+			}
+		}
+		if pick != "" {
+			c.fe.renames[key] = pick
+			c.fe.assumes[fmt.Sprintf("contract name %q of %s is taken to be the renamed loop variable %q", name, c.fe.eng.fnames[c.f.fn], pick)] = true
+			return c.names[pick], true
+		}
+	}
+	// then the parameters: a single parameter the contract never mentions is the renamed one
+	{
+		var ps []string
+		for _, p := range c.f.fn.Params {
+			if !mentioned[p.Name()] && p.Name() != "" && p.Name() != "_" {
+				if _, ok := c.f.params[p.Name()]; ok {
+					ps = append(ps, p.Name())
+				}
+			}
+		}
+		if len(ps) == 1 {
+			c.fe.renames[key] = ps[0]
+			c.fe.assumes[fmt.Sprintf("contract name %q of %s is taken to be the renamed parameter %q", name, c.fe.eng.fnames[c.f.fn], ps[0])] = true
+			return TV{c.f.params[ps[0]], c.f.ptypes[ps[0]]}, true
+		}
+	}
+	cands := map[string]bool{}
+	for _, p := range c.f.fn.Params {
+		if !mentioned[p.Name()] {
+			cands[p.Name()] = true
+		}
+	}
+	for _, b := range c.f.fn.Blocks {
+		for _, in := range b.Instrs {
+			switch x := in.(type) {
+			case *ssa.Phi:
+				if x.Comment != "" && x.Comment != "rangeindex" && !mentioned[x.Comment] && token.IsIdentifier(x.Comment) {
+					cands[x.Comment] = true
+				}
+			case *ssa.DebugRef:
+				if id, ok := x.Expr.(*ast.Ident); ok && !mentioned[id.Name] && id.Name != "_" {
+					cands[id.Name] = true
+				}
+			case *ssa.Alloc:
+				if x.Comment != "" && !mentioned[x.Comment] && token.IsIdentifier(x.Comment) {
+					cands[x.Comment] = true
+				}
+			}
+		}
+	}
+	best, second := "", ""
+	bs, ss := -1.0, -1.0
+	for cand := range cands {
+		l := lcsLen(name, cand)
+		den := len([]rune(name))
+		if n := len([]rune(cand)); n > den {
+			den = n
+		}
+		sc := float64(l) / float64(den)
+		if sc > bs || (sc == bs && cand < best) {
+			second, ss = best, bs
+			best, bs = cand, sc
+		} else if sc > ss {
+			second, ss = cand, sc
+		}
+	}
+	_ = second
+	ok := best != "" && (len(cands) == 1 || (bs >= 0.5 && bs-ss >= 0.2))
+	if !ok {
+		c.fe.renames[key] = ""
+		return TV{}, false
+	}
+	tv, found := c.lookupByAnyName(best)
+	if !found {
+		c.fe.renames[key] = ""
+		return TV{}, false
+	}
+	c.fe.renames[key] = best
+	c.fe.assumes[fmt.Sprintf("contract name %q of %s is taken to be the renamed local %q", name, c.fe.eng.fnames[c.f.fn], best)] = true
+	return tv, true
+}
+
+func (c *specCtx) lookupByAnyName(name string) (TV, bool) {
+	if tv, ok := c.names[name]; ok {
+		return tv, true
+	}
+	if c.f != nil && c.f.fn != nil && c.f.curBlock != nil {
+		if tv, ok := c.localByName(name); ok {
+			return tv, true
+		}
+	}
+	return c.lookupName(name)
+}
+
+// mentionedNames: every identifier that occurs in the text of the contract's clauses.
+func (c *Contract) mentionedNames() map[string]bool {
+	if c.mentioned != nil {
+		return c.mentioned
+	}
+	m := map[string]bool{}
+	add := func(cl *Clause) {
+		if cl == nil {
+			return
+		}
+		for _, w := range identRe.FindAllString(cl.Text, -1) {
+			m[w] = true
+		}
+	}
+	for _, l := range [][]*Clause{c.Requires, c.Ensures, c.Decreases, c.Assumes, c.Defines} {
+		for _, cl := range l {
+			add(cl)
+		}
+	}
+	for _, lc := range c.Loops {
+		for _, cl := range lc.Invariants {
+			add(cl)
+		}
+		for _, cl := range lc.Decreases {
+			add(cl)
+		}
+	}
+	for k := range c.Lets {
+		m[k] = true
+	}
+	c.mentioned = m
+	return m
+}
+
+var identRe = regexp.MustCompile(`[\p{L}_][\p{L}\p{N}_]*`)
 
 func (c *specCtx) pkgObject(pkg *types.Package, name string) (TV, bool) {
 	obj := pkg.Scope().Lookup(name)
